@@ -40,6 +40,9 @@ func pollSchema(i int, kind string) string {
 	switch kind {
 	case "v1", "v2", "v3":
 		return pollPrelude + fmt.Sprintf("type Query { service: Service! f%d_%s: String _thing%d(id: ID!): Thing @boundary }\ntype Thing @boundary { id: ID! t%d_%s: Int }\n", i, kind, i, i, kind)
+	case "v1a", "v2a": // the same public schema as v1/v2, with the entity lookup in its array form: only the routing differs
+		k := kind[:2]
+		return pollPrelude + fmt.Sprintf("type Query { service: Service! f%d_%s: String _things%d(ids: [ID!]!): [Thing]! @boundary }\ntype Thing @boundary { id: ID! t%d_%s: Int }\n", i, k, i, i, k)
 	case "vc": // valid alone, conflicts with any other service's vc (same non-shared type)
 		return pollPrelude + fmt.Sprintf("type Query { service: Service! f%d_vc: String c%d: Clash }\ntype Clash { x%d: String }\n", i, i, i)
 	case "syntax":
@@ -50,7 +53,7 @@ func pollSchema(i int, kind string) string {
 	return ""
 }
 
-var pollKinds = []string{"v1", "v1", "v1", "v2", "v3", "vc", "vc", "syntax", "rule", "down"}
+var pollKinds = []string{"v1", "v1", "v1", "v2", "v3", "vc", "vc", "syntax", "rule", "down", "v1a", "v2a"}
 
 func runC10(cfg runCfg) error {
 	r := rand.New(rand.NewSource(cfg.seed))
@@ -135,11 +138,19 @@ func runC10(cfg runCfg) error {
 					}
 				case mode <= 4:
 				case mode <= 7:
-					if u == pick || (k != "v1" && k != "v2" && k != "v3" && k != "vc" && r.Intn(2) == 0) {
+					if u == pick || (k != "v1" && k != "v2" && k != "v3" && k != "v1a" && k != "v2a" && k != "vc" && r.Intn(2) == 0) {
 						if lv, ok := lastValid[u]; ok && r.Intn(4) > 0 {
 							k = lv
 						} else {
 							k = []string{"v1", "v2", "v3"}[r.Intn(3)]
+						}
+						if r.Intn(4) == 0 { // the same public schema as now, the other lookup form
+							switch cur[u] {
+							case "v1", "v2":
+								k = cur[u] + "a"
+							case "v1a", "v2a":
+								k = cur[u][:2]
+							}
 						}
 					}
 				default:
@@ -147,7 +158,7 @@ func runC10(cfg runCfg) error {
 						k = []string{"syntax", "rule", "down", "vc"}[r.Intn(4)]
 					}
 				}
-				if k == "v1" || k == "v2" || k == "v3" {
+				if k == "v1" || k == "v2" || k == "v3" || k == "v1a" || k == "v2a" {
 					lastValid[u] = k
 				}
 				mu.Lock()
@@ -188,12 +199,21 @@ func runC10(cfg runCfg) error {
 						i := int(f.Name[1] - '0')
 						k := f.Name[strings.Index(f.Name, "_")+1:]
 						u := urls[i-1]
+						// which version is published shows in the public schema and, for the lookup form, in the routing tables
+						if bq, ok := es.BoundaryQueries[u]["Thing"]; ok && bq.Array && k != "vc" {
+							k += "a"
+						}
 						pub = append(pub, cpair(cstr(u), cstr(tok(u, k))))
 						if es.Locations["Query."+f.Name] != u {
 							consistent = false
 						}
 						if k != "vc" {
-							if bq, ok := es.BoundaryQueries[u]["Thing"]; !ok || bq.Field != fmt.Sprintf("_thing%d", i) {
+							want := fmt.Sprintf("_thing%d", i)
+							if strings.HasSuffix(k, "a") {
+								want = fmt.Sprintf("_things%d", i)
+								k = k[:2]
+							}
+							if bq, ok := es.BoundaryQueries[u]["Thing"]; !ok || bq.Field != want {
 								consistent = false
 							}
 							if es.Locations[fmt.Sprintf("Thing.t%d_%s", i, k)] != u || !es.IsBoundary["Thing"] {
